@@ -387,9 +387,10 @@ def gen_ff_linktype(g):
     b["itp"] = False
     names = [b["name"]]
     a0, a1, al = b["atoms"][0]["name"], b["atoms"][1]["name"], b["atoms"][-1]["name"]
+    lt0 = g.choice(["a16", "circle"])         # 'circle' is the tag the shipped DNA libraries use for ring closures
     links = [
         {"resnames": names, "sections": {"bonds": [{"atoms": [al, ">" + a0], "params": ["1", "0.37", "6500"], "meta": {}}],
-                                         "edges": [{"atoms": [al, ">" + a0], "params": [], "meta": {"linktype": "a16"}}]}},
+                                         "edges": [{"atoms": [al, ">" + a0], "params": [], "meta": {"linktype": lt0}}]}},
         {"resnames": names, "sections": {"bonds": [{"atoms": [a1, ">" + a0], "params": ["1", "0.32", "5500"], "meta": {}}],
                                          "edges": [{"atoms": [a1, ">" + a0], "params": [], "meta": {"linktype": "a13"}}]}},
     ]
@@ -398,5 +399,5 @@ def gen_ff_linktype(g):
     n = g.randint(3, 8)
     edges = [[g.randrange(k), k] for k in range(1, n)] if g.random() < 0.6 else [[k, k + 1] for k in range(n - 1)]
     rg = {"shape": "tree", "resnames": [b["name"]] * n, "edges": edges,
-          "edge_attrs": [{"linktype": g.choice(["a16", "a13"])} for _ in edges]}
+          "edge_attrs": [{"linktype": g.choice([lt0, "a13"])} for _ in edges]}
     return ff, rg
